@@ -117,6 +117,23 @@ pub fn giant_cells(a: &Args, rep: &mut Report, label: &str, quick: &[usize], tho
 }
 
 
+/// Drum inputs (vcore::case::drum_case): a prism cell with m side faces whose end cap is cut off by ONE clip removing m vertices.
+pub fn drum_cells(a: &Args, rep: &mut Report, label: &str, quick: &[usize], thorough: &[usize], f: impl Fn(&Case, &mut Report) + Sync) {
+    if a.leg.as_deref().map_or(false, |l| l != "relcheck" && l != "norayon") {
+        return;
+    }
+    let szs: &[usize] = if a.tier == "thorough" { thorough } else { quick };
+    run_parallel(rep, szs.len() as u64, budget(a, 100., 900.), |k, rep| {
+        let c = vcore::case::drum_case(label, &a.tier, a.seed, k, szs[k as usize]);
+        f(&c, rep);
+        rep.count("drum_inputs", 1);
+        rep.max("drum_largest_ring", szs[k as usize] as f64);
+    });
+}
+
+pub const DRUM_QUICK: [usize; 24] = [5, 8, 20, 40, 63, 64, 65, 66, 70, 80, 100, 127, 128, 129, 130, 150, 200, 255, 256, 257, 300, 400, 513, 700];
+pub const DRUM_THOROUGH: [usize; 40] = [5, 8, 20, 40, 63, 64, 65, 66, 70, 80, 100, 127, 128, 129, 130, 150, 200, 255, 256, 257, 300, 400, 513, 700, 1000, 1025, 1500, 2000, 2049, 3000, 4097, 5000, 8000, 12000, 16385, 20000, 32769, 40000, 65537, 70000];
+
 /// Wedge inputs (vcore::case::wedge_case): one pair of generators 1e-6 .. 1e-5 box widths apart among a few ordinary
 /// ones in a cubic box: nearly parallel adjacent faces, thin wedges, badly conditioned (but decidable) vertices.
 pub fn wedge_cells(a: &Args, rep: &mut Report, label: &str, quick: u64, thorough: u64, f: impl Fn(&Case, &mut Report) + Sync) {
@@ -202,6 +219,18 @@ pub fn run(a: &Args, rep: &mut Report) {
             zoom_cells(a, rep, "Xzoom", std::env::var("VERIF_ZOOM_HOSTILE").is_ok(), 2000, 20000, |c, rep| {
                 crate::p_zoom::one_zoom("Xzoom", c, rep);
                 crate::p_nn::one_c17("Xzoom", c, rep);
+            });
+        }
+        "Xdrum" => {
+            // survey of the drum family: every ring size of the thorough list, 40 seeds each, all cell-level monitors
+            let szs: Vec<usize> = (0..(40. * a.scale) as usize).flat_map(|_| DRUM_THOROUGH[..32].to_vec()).collect();
+            drum_cells(a, rep, "Xdrum", &szs, &szs, |c, rep| {
+                one_c01("Xdrum", c, rep);
+                one_c04("Xdrum", c, rep);
+                crate::p_poly::one_c15("Xdrum", c, rep);
+                if std::env::var("VERIF_DRUM_C18").is_ok() {
+                    crate::p_poly::one_c18("Xdrum", c, rep);
+                }
             });
         }
         "C05corpus" => {
@@ -413,6 +442,7 @@ fn c01(a: &Args, rep: &mut Report) {
     });
     giant_cells(a, rep, "C01", &[3000], &[3000, 12000, 12000], |c, rep| one_c01("C01", c, rep));
     wedge_cells(a, rep, "C01", 1500, 20000, |c, rep| one_c01("C01", c, rep));
+    drum_cells(a, rep, "C01", &DRUM_QUICK, &DRUM_THOROUGH, |c, rep| one_c01("C01", c, rep));
     zoom_cells(a, rep, "C01", false, 400, 6000, |c, rep| crate::p_zoom::one_zoom("C01", c, rep));
 }
 
@@ -530,4 +560,5 @@ fn c04(a: &Args, rep: &mut Report) {
     });
     giant_cells(a, rep, "C04", &[3000, 12000], &[3000, 12000, 25000, 40000], |c, rep| one_c04("C04", c, rep));
     wedge_cells(a, rep, "C04", 3000, 40000, |c, rep| one_c04("C04", c, rep));
+    drum_cells(a, rep, "C04", &DRUM_QUICK, &DRUM_THOROUGH, |c, rep| one_c04("C04", c, rep));
 }
